@@ -18,7 +18,9 @@ class C06(FragHarness):
             for n in range(0, (3 if q else 4) + 1):
                 if (n == 4 and nlw != 1) or (nlw == 3 and (n < 3 or q)):
                     continue
-                out.append({'algo': 'O', 'num': 'int', 'n': n, 'nlw': nlw, 'B': 1 << 10, 'LB': 1 << 12, 'SB': 3, 'PB': 2})
+                big = n >= 4
+                out.append({'algo': 'O', 'num': 'int', 'n': n, 'nlw': nlw, 'B': 64 if big else 1 << 10,
+                            'LB': 256 if big else 1 << 12, 'SB': 3, 'PB': 2})
         # symbolic penalties for optimal-fit
         out.append({'algo': 'O', 'num': 'int', 'n': 2 if q else 3, 'nlw': 1, 'B': 64, 'LB': 256, 'SB': 2, 'PB': 1, 'sympen': True})
         return out
